@@ -163,6 +163,12 @@ func loadCorpus(dir string) []json.RawMessage {
 
 // withWatchdog runs f; if it does not return in time the case is reported as hung and the
 // goroutine is abandoned (each case owns its database, so later cases are unaffected).
+// hangCount counts abandoned cases; a layer stops early after a few of them (each costs
+// the full watchdog time).
+var hangCount int
+
+const maxHangs = 4
+
 func withWatchdog(d time.Duration, f func()) (hung bool) {
 	done := make(chan struct{})
 	go func() {
@@ -173,6 +179,7 @@ func withWatchdog(d time.Duration, f func()) (hung bool) {
 	case <-done:
 		return false
 	case <-time.After(d):
+		hangCount++
 		return true
 	}
 }
